@@ -73,7 +73,7 @@ func genKnobs(r *Rand) ExecKnobs {
 
 func genKnobs0(r *Rand) ExecKnobs {
 	return ExecKnobs{Memo: r.Chance(0.4), ChanSize: []int{0, 0, 1, 2, 7}[r.Intn(5)], BulkSize: []int{1, 2, 3, 10}[r.Intn(4)],
-		Sched: r.U64(), Permute: r.Bool(), Pace: r.Intn(3), Preempt: r.Intn(3), Procs: []int{1, 2, 4, 16}[r.Intn(4)], CtxAware: r.Chance(0.4), Direct: r.Chance(0.25)}
+		Sched: r.U64(), Permute: r.Bool(), Pace: r.Intn(3), Preempt: r.Intn(3), Procs: []int{1, 1, 2, 2, 4, 4, 16, 16, 3, 6, 8, 12, 24, 32}[r.Intn(14)], CtxAware: r.Chance(0.4), Direct: r.Chance(0.25)}
 }
 
 func (h *faultHarness) Gen(r *Rand, tier string, clean bool) any {
